@@ -1011,7 +1011,10 @@ class GroupCoordinator(BaseCoordinator):
                     "to another member"
                 ) from exc
             except Errors.KafkaError as err:
-                if not err.retriable:
+                if not err.retriable or self._closing.done():
+                    # While closing the coordinator is not looked up again
+                    # (see ensure_coordinator_known), so retrying can not
+                    # succeed and would keep close() from ever returning.
                     raise
                 else:
                     # wait backoff and try again
